@@ -351,7 +351,8 @@ func c08Run(r *vkit.Run) {
 				parts = append(parts, fmt.Sprint(v))
 			}
 			for _, qi := range []int{0, 3} {
-				for _, lim := range []int{-1, 0} {
+				// (a limit that every record fits under selects them all: the order inside each stream is still defined)
+				for _, lim := range []int{-1, 0, n, n + 3} {
 					if c08Check(r, c08Input{Recs: s, Times: "perm:" + strings.Join(parts, ","), Query: qi, Limit: lim}) {
 						r.NonTrivial()
 					}
